@@ -74,8 +74,10 @@ def run_parallel(ctx, binary, payload, procs):
         results = list(ex.map(lambda ic: ctx.run_engine(binary, "TestWalReplay",
                                                         dict(payload, behaviours=ic[1], concurrent=conc if ic[0] < 2 else 0),
                                                         timeout=3000), enumerate(chunks)))
-    total = {"stats": {}, "steps": 0}
+    total = {"stats": {}, "steps": 0, "observations": []}
     for r in results:
+        total["observations"] += [x["observation"] for x in r.get("samples", []) if isinstance(x, dict) and "observation" in x]
+        r["samples"] = [x for x in r.get("samples", []) if not (isinstance(x, dict) and "observation" in x)]
         ctx.absorb(r, "wal", "TestWalReplay")
         total["steps"] += r.get("steps", 0)
         for k, v in r.get("stats", {}).items():
@@ -114,6 +116,11 @@ def run(ctx):
                "behaviours": decorate(behaviours, ctx.seed, 5 if thorough else 10, thorough)}
     res = run_parallel(ctx, binary, payload, int(os.environ.get("VERIF_ENGINE_PROCS", "6")))
     st = res.get("stats", {})
+    # C14 does not quantify over schedules: what only a concurrent writer in the middle of a reader's call can cause
+    # is reported, counted and NOT a verdict
+    for o in res.get("observations", [])[:5]:
+        print("OBSERVATION: property=C14 %s" % o, flush=True)
+    ctx.coverage["observations"] = st.get("observations", 0)
     if not ctx.violations:   # vacuity guards never mask an observed violation
         for need in ("cleanups", "failed_flushes", "crashes", "sweeps", "images_reopened", "concurrent_rounds",
                      "concurrent_reads", "retained_entries_rechecked", "recovery_probes", "fat_batches"):
